@@ -13,18 +13,6 @@ namespace Lena.C16
 
 variable {σ α β : Type}
 
-/-- no entry of `_buffer_out` is a generator object -/
-def allDone : List (Pend β) → Bool
-  | [] => true
-  | .done _ :: r => allDone r
-  | .gen :: _ => false
-
-/-- every entry of `_buffer_out` is a generator object -/
-def allGen : List (Pend β) → Bool
-  | [] => true
-  | .done _ :: _ => false
-  | .gen :: r => allGen r
-
 /-- the results held in `_buffer_out` (generator objects hold none yet) -/
 def pendResults (l : List (Pend β)) : List β := l.flatMap (fun p => match p with | .done r => r | .gen => [])
 
@@ -62,11 +50,6 @@ theorem flushX_allDone (e : ElX σ α β) : ∀ (l : List (Pend β)) (el : σ), 
     have := flushX_allDone e rest el (by simpa [allDone] using h)
     simp [flushX, this, pendResults]
   | .gen :: _, _, h => by simp [allDone] at h
-
-/-- `k` generator objects of the element iterated one after the other, now -/
-def iterReq (e : ElX σ α β) : Nat → σ → List β × σ
-  | 0, el => ([], el)
-  | k + 1, el => let r := e.req el; let q := iterReq e k r.2; (r.1 ++ q.1, q.2)
 
 /-- **generator objects report the present**: buffered generator objects yield what the element's
 `request` yields on the state the element has when `request()` is consumed — the blocks they were
@@ -153,13 +136,6 @@ theorem requestX_bufOut (e : ElX σ α β) (N : Nat) (rst bi yor : Bool) (s : St
   split
   · simp only [h3, h2, h1]
   · simp only [h4, h3, h2, h1]
-
-/-- what a history leaves in `_buffer_out`, by where the adapter iterates the generators: results only
-(`atCall`), generator objects only (`atRequest`) -/
-def bufKind (ev : Eval) (l : List (Pend β)) : Bool :=
-  match ev with
-  | .atCall => allDone l
-  | .atRequest => allGen l
 
 theorem bufKind_nil (ev : Eval) : bufKind ev ([] : List (Pend β)) = true := by cases ev <;> rfl
 
